@@ -275,3 +275,11 @@ def fn_first_of_two(x, y):
 def fn_fanout(x):
     # a body whose four results all fold back onto its input
     return x, x.T.T, x.reshape(-1).reshape(x.shape), jnp.swapaxes(jnp.swapaxes(x, 0, 1), 0, 1)
+
+
+@onnx_function
+def switch4_fn(x):
+    from jax import lax as _lax
+
+    idx = (x[0] > 0).astype(jnp.int32) * 3
+    return _lax.switch(idx, [lambda v: v + 1, lambda v: v * 2, lambda v: v - 1, lambda v: v * v], x)
